@@ -89,6 +89,9 @@ def _run(ctx):
             if not idiom and a[1] == 'Le' and a[3].lstrip('-').isdigit() and ' Shr ' in a[2] and a[2].startswith('('):
                 rep.violation('R-C07-4', 'R-C07-4/range-guard/constants', 'promise guard accepts (promise >> bits) <= %s: promises up to %d * 2^bits - 1 pass' % (a[3], int(a[3]) + 1),
                               ctx.where(cons, r['guard'].bb))
+            elif not idiom and a[1] == 'Le' and a[2].lstrip('-').isdigit() and ' Shr ' in a[3] and a[3].startswith('('):
+                rep.violation('R-C07-4', 'R-C07-4/range-guard/constants', 'promise guard accepts %s <= (promise >> bits): it does not bound the promise from above' % a[2],
+                              ctx.where(cons, r['guard'].bb))
             elif not idiom:
                 from .common import bound_verdict
                 from bpsa.terms import T as _T
